@@ -4,6 +4,10 @@
       wl[k] = exp(-1/2 / sigma^2 * sum_c W_c(grid_j[k, c] - grid_i[c])^2) * weights[k],  num = sum_k wl[k]
       with W_c the minimum-image wrap v - round(v / cell_c) * cell_c (exact round-half-even) when a cell is given and the identity otherwise;
       the caller's arrays are not written (the in-place wrap acts on the freshly allocated difference).
+  _covariance (free space): entry (a, b) = sum_k (x_ka - m_a) (w_k / W) (x_kb - m_b) / (1 - sum_k (w_k / W)^2) with m the weighted mean; the matrix is symmetric; caller arrays untouched.
+  oas (skmatter/utils/_sparsekde.py): (1 - phi) cov + phi (tr cov / D) I with the documented phi; a symmetric input gives a symmetric output.
+  SparseKDE._bandwidth_estimation_from_localization: h = (4 / n_local / (dim + 2))^(2 / (dim + 4)) * oas(local covariance), the effective dimension taken from the UNSHRUNK local
+      covariance, the local covariance measured on the grid with the local weights; the bandwidth matrix is symmetric (chain: _covariance symmetric -> oas symmetric -> h symmetric).
   SparseKDE._bandwidth_inv / _normkernels (cached properties): entry j is inv(bandwidth_[j]) / d*log(2 pi) + log|det bandwidth_[j]|, computed once after a fit and
       served from the cache afterwards; not available before fit.
 
@@ -55,6 +59,21 @@ def extend_ext(ext):
     np_.linalg.inv = np_inv; np_.linalg.slogdet = np_slogdet
     np_.array = np_array_of_stack(np_.array)
     ext['comp_sym'] = comp_sym
+    ext['c17b'] = True
+    ext['arr_attrs'] = dict(ext['arr_attrs'])
+    prev_reshape = ext['arr_attrs']['reshape']
+    def reshape_attr(I, a):
+        def f(I2, *shape, **kw):
+            A = I2.A(a); shp = tuple(shape[0]) if len(shape) == 1 and isinstance(shape[0], (tuple, list)) else tuple(shape)
+            if A.ndim == 1 and len(shp) == 2 and conc(shp[0]) == -1 and conc(shp[1]) == 1:
+                return I2.new_arr(ArrVal((A.shape[0], 1), lambda x, y: A.elem(tz(x)), A.sort))
+            return prev_reshape(I2, a)(I2, *shape, **kw)
+        return f
+    ext['arr_attrs']['reshape'] = reshape_attr
+    np_.trace = np_trace; np_.eye = np_eye; np_.average = np_average
+    if dot_hook not in npstubs.MATMUL_HOOKS: npstubs.MATMUL_HOOKS.append(dot_hook)
+    ext['builtins'] = dict(ext['builtins']); ext['builtins']['sum'] = b_sum
+    ext['pow_hook'] = lambda I, a, b: POW(to_real(tz(a)), to_real(tz(b)))
 
 def wrapc(v, cell):
     """minimum-image wrap of one coordinate"""
@@ -161,6 +180,128 @@ def u_cached(which, state):
     return Unit(f'SparseKDE.{which}[{state}]', body, functions=[KD + '.' + which], on_raise=(lambda I, st, r: r.kind == 'ValueError') if state == 'unfitted' else None,
                 reject_name=rn if state == 'unfitted' else None)
 
-UNITS = [lambda: u_local_population(False), lambda: u_local_population(True)] + [(lambda w, s_: (lambda: u_cached(w, s_)))(w, s_) for w in ('_bandwidth_inv', '_normkernels') for s_ in ('unfitted', 'first', 'cached')]
+# ------------------------------------------------------------------ covariance, OAS shrinkage, bandwidth assembly
+UT = 'skmatter.utils._sparsekde'
+POW = z3.Function('pow', RealS, RealS, RealS)
+TRACE = z3.Function('TRACE', z3.ArraySort(IntS, IntS, RealS), IntS, RealS)          # sum of the diagonal entries
+t_ = Int('t')
+
+def lamk(f): return z3.Lambda([k_], f(k_))
+
+def np_trace(I, a, **kw):
+    npstubs.used('np.trace (finite-sum functional over the diagonal)')
+    A = I.A(a)
+    if A.ndim != 2: raise Unsupported("trace of a non-matrix")
+    return TRACE(z3.Lambda([a_, b_], to_real(A.elem(a_, b_))), tz(A.shape[0]))
+def np_eye(I, n, *a, **kw):
+    if a or kw: raise Unsupported("eye form")
+    return I.new_arr(ArrVal((n, n), lambda x, y: If(tz(x) == tz(y), RealVal(1), RealVal(0)), RealS))
+def np_average(I, X, axis=None, weights=None, **kw):
+    npstubs.used('np.average(X, axis=0, weights=w) = sum_k w_k X[k, c] / sum_k w_k')
+    A = I.A(X); W = I.A(weights)
+    if A.ndim != 2 or axis != 0 or W.ndim != 1: raise Unsupported("np.average form")
+    sd = npstubs.same_dim(A.shape[0], W.shape[0])
+    if sd is False: raise RaiseEx('ValueError')
+    if sd is None: I.ob('shape:np.average weights', tz(A.shape[0]) == tz(W.shape[0]), kind='shape')
+    n = tz(A.shape[0])
+    den = SUMARR(lamk(lambda k: to_real(W.elem(k))), n)
+    return I.new_arr(ArrVal((A.shape[1],), lambda c: SUMARR(lamk(lambda k: to_real(W.elem(k)) * to_real(A.elem(k, tz(c)))), n) / den, RealS))
+def dot_hook(I, a, b, what):
+    """A^T-style products of element-defined matrices: entry (x, y) = sum_k a[x, k] * b[k, y] (finite-sum functional)"""
+    if not (isinstance(a, ArrRef) and isinstance(b, ArrRef)): return None
+    A, B = I.A(a), I.A(b)
+    if A.ndim != 2 or B.ndim != 2 or A.sort != RealS or B.sort != RealS or (A.tag and A.tag[0] == 'mat') or (B.tag and B.tag[0] == 'mat'): return None
+    if not I.ext.get('c17b'): return None
+    sd = npstubs.same_dim(A.shape[1], B.shape[0])
+    if sd is False: raise RaiseEx('ValueError')
+    if sd is None: I.ob(f'shape:{what}', tz(A.shape[1]) == tz(B.shape[0]), kind='shape')
+    n = tz(A.shape[1])
+    return I.new_arr(ArrVal((A.shape[0], B.shape[1]), lambda x, y: SUMARR(lamk(lambda k: A.elem(tz(x), k) * B.elem(k, tz(y))), n), RealS))
+def b_sum(I, it, start=0):
+    if isinstance(it, ArrRef) and I.A(it).ndim == 1 and I.A(it).sort == RealS:
+        A = I.A(it); return SUMARR(lamk(lambda k: to_real(A.elem(k))), tz(A.shape[0]))
+    return npstubs.b_sum(I, it, start)
+
+def u_oas():
+    q = UT + '.oas'
+    def body(I):
+        D = I.fresh('D', IntS); I.assume(D >= 1)
+        n = I.fresh('n', RealS); I.assume(n > 0)
+        C = I.fresh_arr('cov', (D, D)); C0 = I.A(C)
+        r = I.call_func(I.repo.get(q), [C, n, D], {})
+        R = I.A(r); c = C0.elem
+        x, y = I.fresh('x', IntS), I.fresh('y', IntS); I.assume(And(0 <= x, x < D, 0 <= y, y < D))
+        tr = TRACE(z3.Lambda([a_, b_], c(a_, b_)), D); tr2c = TRACE(z3.Lambda([a_, b_], c(a_, b_) * c(a_, b_)), D)
+        Dr = z3.ToReal(D)
+        phi = ((1 - 2 / Dr) * tr2c + tr * tr) / ((n + 1 - 2 / Dr) * tr2c - tr * tr / Dr)
+        I.ob('post[C17]:shrunk-covariance-is-(1-phi)-cov-plus-phi-times-the-mean-variance-on-the-diagonal', R.elem(x, y) == (1 - phi) * c(x, y) + phi * If(x == y, RealVal(1), RealVal(0)) * tr / Dr, kind='post')
+        I.ob('post[C17]:shrinkage-keeps-a-symmetric-matrix-symmetric', Implies(c(x, y) == c(y, x), R.elem(x, y) == R.elem(y, x)), kind='post')
+        I.ob('post[C09]:the-covariance-of-the-caller-is-not-written', BoolVal(I.A(C) is C0), kind='post')
+    return Unit('oas', body, functions=[q])
+
+def u_covariance():
+    q = SK + '._covariance'
+    def body(I):
+        n, d = I.fresh('n', IntS), I.fresh('d', IntS); I.assume(And(n >= 1, d >= 1))
+        X = I.fresh_arr('X', (n, d)); W = I.fresh_arr('w', (n,)); X0, W0 = I.A(X), I.A(W)
+        xe, we = X0.elem, W0.elem
+        tot = SUMARR(lamk(lambda k: we(k)), n)
+        I.assume(tot > 0)          # requires: the weights have a positive total (local weights are Gaussians times positive grid weights)
+        r = I.call_func(I.repo.get(q), [X, W, None], {})
+        R = I.A(r)
+        wn = lambda k: we(k) / tot
+        mean = lambda c: SUMARR(lamk(lambda k: wn(k) * xe(k, c)), n) / SUMARR(lamk(lambda k: wn(k)), n)
+        den = 1 - SUMARR(lamk(lambda k: wn(k) * wn(k)), n)
+        x, y = I.fresh('x', IntS), I.fresh('y', IntS); I.assume(And(0 <= x, x < d, 0 <= y, y < d))
+        f = lambda p, q_: lamk(lambda k: (xe(k, p) - mean(p)) * we(k) / tot * (xe(k, q_) - mean(q_)))
+        I.ob('post[C17]:one-entry-per-pair-of-coordinates', And(BoolVal(R.ndim == 2), tz(R.shape[0]) == d, tz(R.shape[1]) == d), kind='post')
+        I.ob('post[C17]:covariance-is-the-weighted-sum-of-outer-products-of-the-centred-points-with-the-unbiasing-factor', R.elem(x, y) == SUMARR(f(x, y), n) / den, kind='post')
+        # symmetry: the two summand functions agree entry by entry (commutativity of the product), hence the sums (congruence of the finite-sum functional)
+        k0 = I.fresh('k0', IntS)
+        g1 = f(x, y)[k0] == f(y, x)[k0]
+        I.ob('step:summands-of-the-transposed-entry-agree', g1, kind='lemma')
+        I.assume(ForAll([t_], f(x, y)[t_] == f(y, x)[t_]))                                   # generalisation over the arbitrary index k0
+        I.assume(Implies(ForAll([t_], f(x, y)[t_] == f(y, x)[t_]), SUMARR(f(x, y), n) == SUMARR(f(y, x), n)))      # congruence of SUMARR at these two functions
+        I.ob('post[C17]:covariance-is-symmetric', R.elem(x, y) == R.elem(y, x), kind='post')
+        I.ob('post[C09]:the-arrays-of-the-caller-are-not-written', BoolVal(I.A(X) is X0 and I.A(W) is W0), kind='post')
+    return Unit('_covariance[free space]', body, functions=[q])
+
+def u_bandwidth():
+    q = KD + '._bandwidth_estimation_from_localization'
+    def cov_contract():
+        def make_result(I, F):
+            I.cur['cov_args'] = dict(F)
+            d = I.A(F['X']).shape[1]
+            r = I.fresh_arr('localcov', (d, d)); R = I.A(r)
+            I.assume(ForAll([a_, b_], R.elem(a_, b_) == R.elem(b_, a_), patterns=[R.elem(a_, b_)]))      # proved in the unit of _covariance
+            I.cur['cov'] = r
+            return r
+        return FuncContract(make_result=make_result)
+    def effdim_contract():
+        def make_result(I, F):
+            I.cur['effdim_arg'] = F['cov']; ld = I.fresh('local_dimension', RealS); I.assume(ld > 0); I.cur['ld'] = ld; return ld
+        return FuncContract(make_result=make_result)
+    def body(I):
+        g, d, n = I.fresh('g', IntS), I.fresh('d', IntS), I.fresh('n', IntS); I.assume(And(g >= 1, d >= 1, n >= 1))
+        I.cur = {}
+        X = I.fresh_arr('grid', (g, d)); wl = I.fresh_arr('wlocal', (g,)); fl = I.fresh_arr('flocal', (g,)); D = I.fresh_arr('descriptors', (n, d))
+        idx = I.fresh('idx', IntS); I.assume(And(0 <= idx, idx < g))
+        I.assume(I.A(fl).elem(idx) > 0)
+        cell = None
+        cls = I.repo.get(KD)
+        me = I.new_obj(cls, dict(cell=cell, descriptors=D))
+        h, cov = I.call_func(I.find_method(cls, '_bandwidth_estimation_from_localization'), [me, X, wl, fl, idx], {})
+        H, C = I.A(h), I.A(cov)
+        ca = I.cur.get('cov_args')
+        I.ob('post[C17]:local-covariance-is-measured-on-the-grid-with-the-local-weights-and-the-configured-cell', BoolVal(ca is not None and ca['X'].id == X.id and ca['sample_weights'].id == wl.id and ca['cell'] is cell), kind='post')
+        I.ob('post[C17]:effective-dimension-is-taken-from-the-unshrunk-local-covariance', BoolVal(I.cur.get('effdim_arg') is not None and I.cur['effdim_arg'].id == I.cur['cov'].id), kind='post')
+        nlocal = I.A(fl).elem(idx) * z3.ToReal(n); ld = I.cur['ld']
+        x, y = I.fresh('x', IntS), I.fresh('y', IntS); I.assume(And(0 <= x, x < d, 0 <= y, y < d))
+        I.ob('post[C17]:bandwidth-is-the-Silverman-factor-(4/n_local/(dim+2))^(2/(dim+4))-times-the-shrunk-local-covariance', H.elem(x, y) == POW(4 / nlocal / (ld + 2), 2 / (ld + 4)) * C.elem(x, y), kind='post')
+        I.ob('post[C17]:bandwidth-matrix-is-symmetric', H.elem(x, y) == H.elem(y, x), kind='post')
+        I.ob('post[C17]:returned-covariance-is-symmetric', C.elem(x, y) == C.elem(y, x), kind='post')
+    return Unit('SparseKDE._bandwidth_estimation_from_localization', body, funcs={SK + '._covariance': cov_contract(), UT + '.effdim': effdim_contract()}, functions=[q, UT + '.oas'])
+
+UNITS = [lambda: u_local_population(False), lambda: u_local_population(True), lambda: u_oas(), lambda: u_covariance(), lambda: u_bandwidth()] + [(lambda w, s_: (lambda: u_cached(w, s_)))(w, s_) for w in ('_bandwidth_inv', '_normkernels') for s_ in ('unfitted', 'first', 'cached')]
 RT = False
 TRUSTED = ["finite-sum functionals SUMD / SUMARR, exp, log, matrix inverse and log|det| uninterpreted functions of their arguments: equal arguments give equal values (congruence on identical lambda terms)"]
